@@ -182,9 +182,9 @@ func evalPath(node *jparse.PathNode, data reflect.Value, env *environment) (refl
 		return undefined, nil
 	}
 
-	// A path that starts with a variable - however many predicates
-	// and sort operators are applied to it - is evaluated once, not
-	// once per member of an array context.
+	// A path that starts with a variable - however many predicates,
+	// sort operators and a grouping are applied to it - is evaluated
+	// once, not once per member of an array context.
 	var isVar bool
 	for step0 := node.Steps[0]; step0 != nil && !isVar; {
 		switch n := step0.(type) {
@@ -193,6 +193,8 @@ func evalPath(node *jparse.PathNode, data reflect.Value, env *environment) (refl
 		case (*jparse.PredicateNode):
 			step0 = n.Expr
 		case (*jparse.SortNode):
+			step0 = n.Expr
+		case (*jparse.GroupNode):
 			step0 = n.Expr
 		default:
 			step0 = nil
